@@ -67,6 +67,9 @@ func (c *Ctx) checkComplementTable() {
 	L.Rule("complement-table", "complement_nuc_mapping has exactly the 15 IUPAC codes and U in both cases plus GAP, POINT, OTHER; each code maps to the code whose base set is the base-wise complement of its own; case is preserved; U/u map to A/a; the three special characters are fixed; applying the table twice is the identity except on U/u")
 	t, err := findTable(pk, "complement_nuc_mapping")
 	if err != nil {
+		if c.waiveIfNotLiteral("complement-table", err) {
+			return
+		}
 		L.Unknown("complement-table", "align.complement_nuc_mapping", "literal evaluates", "-", err.Error())
 		return
 	}
